@@ -85,8 +85,32 @@ type nroute struct {
 	Limit  int    `json:"limit"`
 }
 
+// pathDelay: the delay of a route as its hops say it - the sum of the hop delays (each at least the minimum hop
+// delay), saturating at 65534. Computed here, not read from the entry: the table sorts by what IT computed.
+func pathDelay(hops []m.SwitchHop, stored uint16) int {
+	if len(hops) == 0 {
+		return int(stored)
+	}
+	sum := 0
+	for _, h := range hops {
+		if h.Delay < m.MinHopDelay {
+			sum += int(m.MinHopDelay)
+		} else {
+			sum += int(h.Delay)
+		}
+	}
+	if sum > 65534 {
+		sum = 65534
+	}
+	return sum
+}
+
 func (n *nestedCfg) project(e *m.RoutingTableEntry, seen map[netip.Prefix]int) nroute {
-	r := nroute{Dst: n.id(e.DstIP), Nh: n.id(e.NextHop), Hops: int(e.Path.TotalHops), Delay: int(e.Path.TotalDelay), Relays: []int{}, Exp: "fresh", Src: "gossip"}
+	hopsN := 1
+	if len(e.Path.Hops) > 1 {
+		hopsN = len(e.Path.Hops) - 1
+	}
+	r := nroute{Dst: n.id(e.DstIP), Nh: n.id(e.NextHop), Hops: hopsN, Delay: pathDelay(e.Path.Hops, e.Path.TotalDelay), Relays: []int{}, Exp: "fresh", Src: "gossip"}
 	if e.Source == m.RouteSourcePeer {
 		r.Src = "peer"
 	}
@@ -136,11 +160,16 @@ func (n *nestedCfg) entry(rng *rand.Rand, dst int, peers []int) (m.RoutingTableE
 		}
 	}
 	first := uint16(rng.Intn(3) * 50)
+	slow := uint16(0)
+	if rng.Intn(5) == 0 {
+		// hops that report seconds, not milliseconds: sums around and beyond what 16 bits hold
+		slow = []uint16{15000, 22000, 30000, 33000, 65000}[rng.Intn(5)]
+	}
 	hops := []m.SwitchHop{{Router: n.me, Delay: first, ForwardLabel: m.SwitchLabel(10 + relays[0])}}
 	for i, x := range relays {
-		hops = append(hops, m.SwitchHop{Router: n.univ[x-1], ForwardLabel: m.SwitchLabel(20 + i), ReturnLabel: m.SwitchLabel(30 + i)})
+		hops = append(hops, m.SwitchHop{Router: n.univ[x-1], Delay: slow, ForwardLabel: m.SwitchLabel(20 + i), ReturnLabel: m.SwitchLabel(30 + i)})
 	}
-	hops = append(hops, m.SwitchHop{Router: d, ReturnLabel: 40})
+	hops = append(hops, m.SwitchHop{Router: d, Delay: slow, ReturnLabel: 40})
 	// one gossip route in eight carries a switch path the table must refuse (its blocks cannot be built): a return
 	// label on the first hop, a forward label on the last, or labels beyond 255 bytes - "not added" then means that
 	// the table is exactly what it was
@@ -190,13 +219,8 @@ func nestedStage(c *vf.Ctx) {
 				}
 				e, r := n.entry(rng, dst, peers)
 				added, err := rt.AddRoute(e)
-				if err == nil {
-					// the route as the table computed it (hops and total delay)
-					for _, x := range rt.VerifEntries() {
-						if x.DstIP == e.DstIP && x.NextHop == e.NextHop && len(x.Path.Hops) == len(e.Path.Hops) && (len(e.Path.Hops) == 0 || x.Path.Hops[0].Delay == e.Path.Hops[0].Delay) {
-							r.Hops, r.Delay = int(x.Path.TotalHops), int(x.Path.TotalDelay)
-						}
-					}
+				if len(e.Path.Hops) > 1 {
+					r.Hops, r.Delay = len(e.Path.Hops)-1, pathDelay(e.Path.Hops, 0)
 				}
 				ev["ev"], ev["route"], ev["added"] = "add", r, added && err == nil
 				ops = append(ops, fmt.Sprintf("add(%d via %d %s)", r.Dst, r.Nh, r.Src))
